@@ -2,9 +2,13 @@
 C17 — the stored merged image is valid after a structural edit, untouched otherwise.
 Property theorems only; helper lemmas live in `Lemmas/Merged.lean`.
 
-`merged_equals_composite` (the stored planes are the quantised composite) is not a theorem
-here: the composite is a parameter of this model (C11); the harness evaluates it on the
-real code (reopened `numpy()` / `topil()` against `composite(force=True)`).
+This file keeps the numeric composite and the sample arithmetic as parameters (decision logic of
+`save()`, geometry). "The merged image equals the composite of the saved layers" is proved in
+`Props/C17Pixels.lean` (same namespace), where they are instantiated with the compositor model of C11
+and the arithmetic of `_merged_planes` over `Rat` (`Model/MergedPixels.lean`): `merged_equals_composite`,
+`merged_equals_published_model`, the quantisation laws, `flatten_uses_alpha`, `merged_is_crop`, the ties
+to the source. (A separate file because it needs single Mathlib modules and the C11 / C13 property
+files, which this file — imported by `Props/C03Pixels.lean` — must not pull in.)
 -/
 import PsdVerif.Model.Merged
 import PsdVerif.Lemmas.Merged
